@@ -14,6 +14,29 @@ FIND_INDEX = {
 }
 
 BLOCKS = {
+    "_boundary_vertices": {
+        # Grid._compute_boundary_information, vertex part (program slice: the flag array and the loop over the boundary edges): a vertex is flagged exactly if it is an
+        # end point of an edge flagged as boundary edge.  (That the edge flags mark the edges with one adjacent element comes from a scipy product and stays under the
+        # bounded sweep of C11.)  Used by C09 / C10: the P1 dof selection reads these flags.
+        "function": ("bempp_cl.api.grid.grid", "Grid._compute_boundary_information"),
+        "slice_targets": ["arr0"],
+        "loop": None,
+        "params": ["edges", "arr1", "number_of_vertices"],
+        "returns": ["arr0"],
+        "contract": {
+            "opaque_ok": True,
+            "args": {"edges": ("arr2", (2, "NE")), "arr1": ("arr1",), "number_of_vertices": ("int",)},
+            "requires": ["len(arr1) == NE and number_of_vertices >= 0",
+                         "forall(0, NE, lambda x: 0 <= edges[0, x] and edges[0, x] < number_of_vertices and 0 <= edges[1, x] and edges[1, x] < number_of_vertices)"],
+            "loops": {1: {"invariant": [
+                "len(arr0) == number_of_vertices",
+                "forall(0, number_of_vertices, lambda v: (arr0[v] != 0) == exists(0, _k, lambda t: edges[0, _iter[t]] == v or edges[1, _iter[t]] == v))"]}},
+            "result": ("arr1",),
+            "ensures": [
+                "len(result) == number_of_vertices",
+                "forall(0, number_of_vertices, lambda v: (result[v] != 0) == exists(0, NE, lambda x: arr1[x] != 0 and (edges[0, x] == v or edges[1, x] == v)))"],
+        },
+    },
     "_p1_numbering": {
         # the straight-line part of _compute_p1_dof_map between its loops that turns the marked vertices into dof numbers: dofs[v] == -1 off the marked vertices and
         # an increasing bijection of the marked vertices onto 0 .. global_dof_count - 1 (this is the `requires` of _p1_final_block about `dofs`)
